@@ -1,9 +1,10 @@
 import MesaModel.Proofs.CellSpaces
 import MesaModel.Proofs.CellEdit
 /-!
-Helper lemmas for C06: histories that edit connections between the agent operations (`Cell.connect` /
-`Cell.disconnect` after construction).  An edit touches `Space.conn` only; well-formedness of the space and
-the occupancy invariant survive it.
+Helper lemmas for C06: histories that edit connections (`Cell.connect` / `Cell.disconnect` after construction) or
+write capacities (`cell.capacity = k`) between the agent operations.  A connection edit touches `Space.conn` only, a
+capacity write `Space.cap` at one cell only; well-formedness of the space and the occupancy invariant survive both; the
+capacity bound survives a capacity write iff the new capacity is not below the cell's occupancy.
 -/
 namespace Mesa.Cells
 
@@ -16,8 +17,14 @@ theorem editSp_cells (sp : Space) (e : DOp) : (editSp sp e).1.cells = sp.cells :
     · split <;> rfl
     · rfl
   | disconnect c c2 => simp only [editSp]; split <;> rfl
+  | setCap c k => simp only [editSp]; split <;> rfl
 
-theorem editSp_cap (sp : Space) (e : DOp) : (editSp sp e).1.cap = sp.cap := by
+/-- a capacity write (`DOp.setCap`) -/
+def DOp.isSetCap : DOp → Bool
+  | .setCap _ _ => true
+  | _ => false
+
+theorem editSp_cap (sp : Space) (e : DOp) (he : e.isSetCap = false) : (editSp sp e).1.cap = sp.cap := by
   cases e with
   | op o => rfl
   | connect c c2 key =>
@@ -26,6 +33,10 @@ theorem editSp_cap (sp : Space) (e : DOp) : (editSp sp e).1.cap = sp.cap := by
     · split <;> rfl
     · rfl
   | disconnect c c2 => simp only [editSp]; split <;> rfl
+  | setCap c k => simp [DOp.isSetCap] at he
+
+theorem editSp_conn_setCap (sp : Space) (c : Cid) (k : Option Nat) : (editSp sp (.setCap c k)).1.conn = sp.conn := by
+  simp only [editSp]; split <;> rfl
 
 theorem editSp_isGrid (sp : Space) (e : DOp) : (editSp sp e).1.isGrid = sp.isGrid := by
   cases e with
@@ -36,11 +47,18 @@ theorem editSp_isGrid (sp : Space) (e : DOp) : (editSp sp e).1.isGrid = sp.isGri
     · split <;> rfl
     · rfl
   | disconnect c c2 => simp only [editSp]; split <;> rfl
+  | setCap c k => simp only [editSp]; split <;> rfl
 
 /-- the occupancy invariant does not look at the connections -/
-theorem Inv.transfer {sp sp' : Space} {s : State} (h : Inv sp s) (hc : sp'.cells = sp.cells)
-    (hcap : sp'.cap = sp.cap) (hg : sp'.isGrid = sp.isGrid) : Inv sp' s :=
+theorem InvB.transfer {sp sp' : Space} {B : Cid → Nat} {s : State} (h : InvB sp B s) (hc : sp'.cells = sp.cells)
+    (hcap : sp'.cap = sp.cap) (hg : sp'.isGrid = sp.isGrid) : InvB sp' B s :=
   ⟨h.mem_cell, h.cell_mem, h.nodup, fun c k hk => h.cap c k (hcap ▸ hk), fun c => by rw [hg]; exact h.flag c,
+   h.known, h.reg_lt, h.reg_nodup, fun a c hm => hc ▸ h.occ_cells a c hm⟩
+
+/-- … nor (with the occupancy itself as the bound) at the capacities -/
+theorem Inv.transfer {sp sp' : Space} {s : State} (h : Inv sp s) (hc : sp'.cells = sp.cells)
+    (hg : sp'.isGrid = sp.isGrid) : Inv sp' s :=
+  ⟨h.mem_cell, h.cell_mem, h.nodup, fun _ _ _ => Or.inr (Nat.le_refl _), fun c => by rw [hg]; exact h.flag c,
    h.known, h.reg_lt, h.reg_nodup, fun a c hm => hc ▸ h.occ_cells a c hm⟩
 
 theorem mem_dictSet_imp {α β : Type} [DecidableEq α] {m : List (α × β)} {k k' : α} {v v' : β}
@@ -92,38 +110,91 @@ theorem editSp_ok {sp : Space} (hsp : SpaceOK sp) (e : DOp) : SpaceOK (editSp sp
       · exact hsp.closed c hcc.1 kk c' ((mem_dictDropValue _ _ _).mp hm).1
       · exact hsp.closed x hx kk c' hm
     · exact hsp.closed
+  | setCap c k =>
+    simp only [editSp]
+    split <;> exact hsp.closed
 
 theorem dstep_ok {sp : Space} (hsp : SpaceOK sp) (s : State) (o : DOp) : SpaceOK (dstep sp s o).1.1 := by
   cases o with
   | op o => exact hsp
   | connect c c2 key => exact editSp_ok hsp _
   | disconnect c c2 => exact editSp_ok hsp _
+  | setCap c k => exact editSp_ok hsp _
 
 theorem dstep_inv {sp : Space} (hsp : SpaceOK sp) {s : State} (h : Inv sp s) (o : DOp) :
     Inv (dstep sp s o).1.1 (dstep sp s o).1.2 := by
   cases o with
   | op o => exact step_inv hsp.closed h o
-  | connect c c2 key => exact h.transfer (editSp_cells sp _) (editSp_cap sp _) (editSp_isGrid sp _)
-  | disconnect c c2 => exact h.transfer (editSp_cells sp _) (editSp_cap sp _) (editSp_isGrid sp _)
+  | connect c c2 key => exact h.transfer (editSp_cells sp _) (editSp_isGrid sp _)
+  | disconnect c c2 => exact h.transfer (editSp_cells sp _) (editSp_isGrid sp _)
+  | setCap c k => exact h.transfer (editSp_cells sp _) (editSp_isGrid sp _)
 
 theorem dstep_same {sp : Space} (s : State) (o : DOp) :
-    (dstep sp s o).1.1.cells = sp.cells ∧ (dstep sp s o).1.1.cap = sp.cap ∧ (dstep sp s o).1.1.isGrid = sp.isGrid := by
+    (dstep sp s o).1.1.cells = sp.cells ∧ (dstep sp s o).1.1.isGrid = sp.isGrid ∧
+    (o.isSetCap = false → (dstep sp s o).1.1.cap = sp.cap) := by
   cases o with
-  | op o => exact ⟨rfl, rfl, rfl⟩
-  | connect c c2 key => exact ⟨editSp_cells sp _, editSp_cap sp _, editSp_isGrid sp _⟩
-  | disconnect c c2 => exact ⟨editSp_cells sp _, editSp_cap sp _, editSp_isGrid sp _⟩
+  | op o => exact ⟨rfl, rfl, fun _ => rfl⟩
+  | connect c c2 key => exact ⟨editSp_cells sp _, editSp_isGrid sp _, editSp_cap sp _⟩
+  | disconnect c c2 => exact ⟨editSp_cells sp _, editSp_isGrid sp _, editSp_cap sp _⟩
+  | setCap c k => exact ⟨editSp_cells sp _, editSp_isGrid sp _, editSp_cap sp _⟩
 
-/-- after any history with connection edits: the space is still well-formed, has the cells, capacities and
-    kind it was built with, and the occupancy invariant holds -/
+/-- after any history with connection edits and capacity writes: the space is still well-formed, has the cells and kind it
+    was built with — and its capacities, if the history writes none —, and the occupancy invariant holds -/
 theorem drun_inv {sp : Space} (hsp : SpaceOK sp) {s : State} (h : Inv sp s) (ops : List DOp) :
     SpaceOK (drun sp s ops).1 ∧ Inv (drun sp s ops).1 (drun sp s ops).2 ∧
-    (drun sp s ops).1.cells = sp.cells ∧ (drun sp s ops).1.cap = sp.cap ∧ (drun sp s ops).1.isGrid = sp.isGrid := by
+    (drun sp s ops).1.cells = sp.cells ∧ (drun sp s ops).1.isGrid = sp.isGrid ∧
+    ((∀ o ∈ ops, o.isSetCap = false) → (drun sp s ops).1.cap = sp.cap) := by
   induction ops generalizing sp s with
-  | nil => exact ⟨hsp, h, rfl, rfl, rfl⟩
+  | nil => exact ⟨hsp, h, rfl, rfl, fun _ => rfl⟩
   | cons o ops ih =>
     obtain ⟨h1, h2, h3, h4, h5⟩ := ih (dstep_ok hsp s o) (dstep_inv hsp h o)
     obtain ⟨e1, e2, e3⟩ := dstep_same (sp := sp) s o
-    exact ⟨h1, h2, h3.trans e1, h4.trans e2, h5.trans e3⟩
+    exact ⟨h1, h2, h3.trans e1, h4.trans e2, fun hno =>
+      (h5 fun o' ho' => hno o' (List.mem_cons_of_mem _ ho')).trans (e3 (hno o List.mem_cons_self))⟩
+
+/-- an operation that is not a capacity write going under the occupancy the cell has now -/
+def DOp.respects (s : State) : DOp → Bool
+  | .setCap c (some k) => decide ((s.occ c).length ≤ k)
+  | _ => true
+
+/-- a history never lowers a capacity under the occupancy of the cell at that moment (raising it, lifting it — `None` —
+    and lowering it down to the number of occupants are all allowed) -/
+def CapRespecting (sp : Space) (s : State) : List DOp → Bool
+  | [] => true
+  | o :: os => o.respects s && CapRespecting (dstep sp s o).1.1 (dstep sp s o).1.2 os
+
+/-- the plain capacity bound (`B = 0`) survives every operation, every connection edit and every capacity write that
+    does not go under the occupancy -/
+theorem dstep_inv0 {sp : Space} (hsp : SpaceOK sp) {s : State} (h : InvB sp (fun _ => 0) s) (o : DOp)
+    (hr : o.respects s = true) : InvB (dstep sp s o).1.1 (fun _ => 0) (dstep sp s o).1.2 := by
+  cases o with
+  | op o => exact step_invB hsp.closed h o
+  | connect c c2 key => exact h.transfer (editSp_cells sp _) (editSp_cap sp _ rfl) (editSp_isGrid sp _)
+  | disconnect c c2 => exact h.transfer (editSp_cells sp _) (editSp_cap sp _ rfl) (editSp_isGrid sp _)
+  | setCap c k =>
+    show InvB (editSp sp (.setCap c k)).1 (fun _ => 0) s
+    simp only [editSp]
+    split
+    · refine ⟨h.mem_cell, h.cell_mem, h.nodup, ?_, h.flag, h.known, h.reg_lt, h.reg_nodup, h.occ_cells⟩
+      intro x k' hk'
+      simp only [setCapSp] at hk'
+      by_cases hx : x = c
+      · subst hx
+        rw [upd_same] at hk'
+        subst hk'
+        simp only [DOp.respects, decide_eq_true_eq] at hr
+        exact Or.inl hr
+      · rw [upd_other _ _ _ hx] at hk'
+        exact h.cap x k' hk'
+    · exact h
+
+theorem drun_inv0 {sp : Space} (hsp : SpaceOK sp) {s : State} (h : InvB sp (fun _ => 0) s) (ops : List DOp)
+    (hr : CapRespecting sp s ops = true) : InvB (drun sp s ops).1 (fun _ => 0) (drun sp s ops).2 := by
+  induction ops generalizing sp s with
+  | nil => exact h
+  | cons o ops ih =>
+    simp only [CapRespecting, Bool.and_eq_true] at hr
+    exact ih (dstep_ok hsp s o) (dstep_inv0 hsp h o hr.1) hr.2
 
 /-- a history without edits is a history -/
 theorem drun_ops (sp : Space) (s : State) (ops : List Op) : drun sp s (ops.map .op) = (sp, run sp s ops) := by
